@@ -70,6 +70,10 @@ func genC11Cfg(t *rapid.T) Cfg {
 }
 
 func genC11Steps(t *rapid.T, depth int) []Step {
+	return genC11StepsAt(t, depth, true)
+}
+
+func genC11StepsAt(t *rapid.T, depth int, top bool) []Step {
 	var steps []Step
 	n := rapid.IntRange(1, 4).Draw(t, "nsteps")
 	usedSubs := map[string]bool{}
@@ -80,7 +84,7 @@ func genC11Steps(t *rapid.T, depth int) []Step {
 				continue
 			}
 			usedSubs[name] = true
-			steps = append(steps, Step{Op: "sub", Name: name, Steps: genC11Steps(t, depth-1)})
+			steps = append(steps, Step{Op: "sub", Name: name, Steps: genC11StepsAt(t, depth-1, false)})
 			continue
 		}
 		api := rapid.SampledFrom([]string{"snap", "json", "yaml", "ssnap", "sjson"}).Draw(t, "api")
@@ -88,6 +92,11 @@ func genC11Steps(t *rapid.T, depth int) []Step {
 		st := Step{Op: "call", API: api, Cfg: genC11Cfg(t), Value: val,
 			Shape: rapid.SampledFrom([]string{"direct", "closure", "helper_same", "helper_nontest", "helper_pkg"}).Draw(t, "shape"),
 			Depth: rapid.SampledFrom([]int{0, 1, 2, 3, 3, 40, 100}).Draw(t, "depth")}
+		if !top && (api == "ssnap" || api == "sjson") {
+			// the k of "<Filename>_<k>" counts the calls of ONE test: with a fixed Filename two tests share file 1.
+			// Only the top-level test uses a fixed Filename for standalone snapshots.
+			st.Cfg.Filename = ""
+		}
 		steps = append(steps, st)
 	}
 	return steps
